@@ -1781,12 +1781,13 @@ def ignore_comments(string):
 
     comments = [
         (mo.start(), mo.group(0))
-        for mo in re.finditer(r'(/\*|\*/|--|\n)', string)
+        for mo in re.finditer(r'(/\*|\*/|--|\n|")', string)
     ]
 
     comments.sort()
 
     in_single_line_comment = False
+    in_character_string = False
     multi_line_comment_depth = 0
     start_offset = 0
     non_comment_offset = 0
@@ -1815,6 +1816,12 @@ def ignore_comments(string):
                                          ' ',
                                          string[start_offset:offset]))
                     non_comment_offset = offset
+        elif kind == '"':
+            # Text in a character string is never a comment. An
+            # embedded quotation mark is written as two ("").
+            in_character_string = not in_character_string
+        elif in_character_string:
+            pass
         elif kind == '--':
             in_single_line_comment = True
             start_offset = offset
